@@ -20,6 +20,41 @@ def main():
     ok("compositions(5) has 2^4 members", len(list(gen.compositions(5))) == 16)
     ok("type-exact comparison separates 0/0.0/False/-0.0", len({repr(gen.tkey(v)) for v in (0, 0.0, False, -0.0)}) == 4)
 
+    # the independent RFC 8259 recogniser and the stdlib parser may only disagree on the non-standard literals
+    import json
+    from mc import bodies
+    from mc.ref import rfc8259
+
+    texts = set(bodies.NONJSON)
+    for seed in bodies.SEEDS[:6]:
+        texts.update(bodies.truncations(seed))
+        texts.update(bodies.corruptions(seed))
+    texts.update(["NaN", "[Infinity]", "-Infinity", "{\"a\": NaN}", "1e5", "-0", "0.5e-3", "[1, 2 , {\"a\" : null}] ", "\"\\u00e9\""])
+    disagreements = []
+    for t in texts:
+        try:
+            json.loads(t)
+            std = True
+        except (ValueError, RecursionError):
+            std = False
+        if std != rfc8259.is_json_text(t) and not ("NaN" in t or "Infinity" in t):
+            disagreements.append(t)
+    ok("RFC 8259 recogniser agrees with json.loads except on NaN/Infinity", not disagreements, "texts=%d disagreements=%r" % (len(texts), disagreements[:3]))
+
+    # the in-memory network model against kernel sockets (a few C19 sequences; the C19 check runs the full leg)
+    try:
+        from checks import c19
+
+        mism = []
+        for case in [(("OK_KA",), "tcp", "call"), (("CLOSE0", "OK_KA"), "tcp", "call"), (("E5XX_NOLEN",), "unix", "call"), (("REFUSE", "RESET"), "tcp", "batch"),
+                     (("TRUNC", "BODILESS"), "unix", "notify")]:
+            out = c19.check_kernel(case)
+            if not out.match or out.viols:
+                mism.append(out.detail)
+        ok("in-memory network and kernel sockets give the same outcome classes", not mism, repr(mism[:2]))
+    except ImportError:
+        pass
+
     for name in ("sched", "env"):
         try:
             mod = __import__("mc." + name, fromlist=["selftest"])
